@@ -52,6 +52,9 @@ CLAIMS = {
  "C05": ("abstract interpretation of the repo's AST on operands and their g-transforms (op(g.a,g.b) == g acting with the declared (k,parity) on op(a,b), as exact terms); induction over expression trees",
          "Decides for every operation of the algebra, operand types k<=3 (D=2) / k<=2 (D=3), both parities and all index choices that the result's declared (k, parity) is exactly how it transforms under the generators of B_D incl. a reflection (so parity bookkeeping errors are visible); since every operation preserves typing, every finite expression is type-sound by induction, without a depth bound. Also decides rejection of mismatched operands, parity mod 2, symmetry of contractions and commutativity of the product up to transposition.",
          "Trusted: einsum/tensordot models; norm = sqrt(sum of squares); the induction step (composition of type-preserving operations).", "3/C05"),
+ "C08": ("abstract interpretation of the repo's AST on x and g.x with all learnable parameters symbolised (block(g.x) == g.block(x) as exact terms; eigh modelled up to its signed-permutation covariance; arg-max as order-free selection)",
+         "Decides for GroupNorm/LayerNorm (scalar and eigh-whitened vector paths), VectorNeuronNonlinear, MaxNormPool, max_pool, average_pool and unpool, for every accepted type incl. pseudo-scalars/vectors, group counts dividing the channels, default eps, several activations, D=2,3, that the block commutes with the generators of B_D (hence the whole group) as an identity of terms in which every scale, bias and mixing weight is a free symbol -- i.e. for every parameter value -- and that pooling/unpooling commute with shifts by the patch length.",
+         "Trusted axioms: A8 (covariance of eigh under signed permutations; degenerate spectra not decided), A10 (arg-max picks the maximal comparator; ties not decided), the definition of eqx.nn.GroupNorm; activations are uninterpreted functions.", "3/C08"),
 }
 
 NA_REASON = "check not built yet in this session (build in progress); see DESIGN.md section 3 for the planned static rule"
